@@ -36,11 +36,32 @@ impl<U: UnitTag> Value for Src1<U> {
 impl<U: UnitTag> MetricValue for Src1<U> {
     type Unit = U;
 }
-/// promises `U` but writes `Count`/`Percent`
-struct Liar<U>(PhantomData<U>);
+/// promises `U` but writes another unit: mode 0 = another kind (`Count`/`Percent`), mode 1 = the
+/// same kind at another scale (Seconds vs Milliseconds, Bytes vs Megabytes), mode 2 = the sibling
+/// kind at the same scale (Bit vs Byte, Bit/s vs Bit)
+struct Liar<U>(u8, PhantomData<U>);
+fn lie_about(u: Unit, mode: u8) -> Unit {
+    use metrique_writer_core::unit::{NegativeScale as N, PositiveScale as P};
+    let other_kind = if u == Unit::Count { Unit::Percent } else { Unit::Count };
+    let nn = |s: N| if s == N::Milli { N::One } else { N::Milli };
+    let pp = |s: P| if s == P::Kilo { P::Mega } else { P::Kilo };
+    match (mode, u) {
+        (1, Unit::Second(s)) => Unit::Second(nn(s)),
+        (1, Unit::Bit(s)) => Unit::Bit(pp(s)),
+        (1, Unit::Byte(s)) => Unit::Byte(pp(s)),
+        (1, Unit::BitPerSecond(s)) => Unit::BitPerSecond(pp(s)),
+        (1, Unit::BytePerSecond(s)) => Unit::BytePerSecond(pp(s)),
+        (2, Unit::Bit(s)) => Unit::Byte(s),
+        (2, Unit::Byte(s)) => Unit::Bit(s),
+        (2, Unit::BitPerSecond(s)) => Unit::Bit(s),
+        (2, Unit::BytePerSecond(s)) => Unit::Byte(s),
+        _ => other_kind,
+    }
+}
 impl<U: UnitTag> Value for Liar<U> {
     fn write(&self, w: impl ValueWriter) {
-        let other = if U::UNIT == Unit::Count { Unit::Percent } else { Unit::Count };
+        let other = lie_about(U::UNIT, self.0);
+        assert!(other != U::UNIT);
         w.metric([metrique_writer_core::Observation::Unsigned(1)], other, [], MetricFlags::empty())
     }
 }
@@ -171,7 +192,9 @@ fn probe<F: UnitTag + Convert<T> + 'static, T: UnitTag + 'static>(obs: &[Obs], o
     let none: Option<Src<F>> = None;
     out.push(mk("option-none", vec![], rec_of(&none.with_unit::<T>())));
     // 5. error cases
-    out.push(mk("liar", vec![], rec_of(&Liar::<F>(PhantomData).with_unit::<T>())));
+    for mode in 0..3u8 {
+        out.push(mk("liar", vec![], rec_of(&Liar::<F>(mode, PhantomData).with_unit::<T>())));
+    }
     out.push(mk("string", vec![], rec_of(&Stringy::<F>(PhantomData).with_unit::<T>())));
 }
 
@@ -478,7 +501,7 @@ pub fn run(ctx: &mut Ctx) {
     ctx.explore(
         SubCfg::new(
             "c19-all-pairs",
-            "each case = one observation list (0-4 observations: unsigned incl. 2^53+-1 and u64::MAX, floats log-uniform over 1e-300..1e300, subnormal, +-0, non-finite, repeated with occurrences 0..u64::MAX) pushed through ALL 435 ordered convertible pairs (3x3 time, 20x20 bit/byte(/s), None->26) x {WithUnit direct, Distribution, Mean, Option Some/None, A->B->A round trip (409 pairs), liar value, string value}. Oracle: exact integer scale table; emitted*scale(to) == original*scale(from) within 4 ulp, identical at ratio 1, occurrences and dimensions untouched, unit name = declared, liar/string => validation error. Non-trivial = ratio != 1 with a repeated or multi-observation value",
+            "each case = one observation list (0-4 observations: unsigned incl. 2^53+-1 and u64::MAX, floats log-uniform over 1e-300..1e300, subnormal, +-0, non-finite, repeated with occurrences 0..u64::MAX) pushed through ALL 435 ordered convertible pairs (3x3 time, 20x20 bit/byte(/s), None->26) x {WithUnit direct, Distribution, Mean, Option Some/None, A->B->A round trip (409 pairs), liar value (writes another kind / the same kind at another scale / the sibling kind at the same scale), string value}. Oracle: exact integer scale table; emitted*scale(to) == original*scale(from) within 4 ulp, identical at ratio 1, occurrences and dimensions untouched, unit name = declared, liar/string => validation error. Non-trivial = ratio != 1 with a repeated or multi-observation value",
             if q { 3_000 } else { 200_000 },
         )
         .threads(ctx.tier.pick(8, 16))
